@@ -81,6 +81,27 @@ pub fn engines() -> Vec<Engine> {
         init: Some(crate::argvgen::init),
         eval_counter: Some("children"),
         shards: 4,
+    },
+    Engine {
+        id: "C14",
+        level: "exploration",
+        generate: crate::c14::generate,
+        execute: crate::c14::execute,
+        shrink: crate::c14::shrink,
+        runs_quick: 240,
+        runs_thorough: 20_000,
+        cap_thorough_secs: 1200,
+        rule: "one evaluation = one zerv execution in a fresh process; per scenario (seeded repository history or stdin document or overrides, one argv, one simulated instant) a reference execution (TZ=UTC, LANG=C, cwd=/, -C <abs repo>, minimal environment) is compared byte for byte (stdout + exit status) with 10-14 perturbed executions (TZ named / POSIX / garbage, LANG / LC_ALL / LC_TIME, 7 cwd / -C spellings incl. sub-directory, relative path and symlink, 5-30 unrelated and tempting environment variables, HOME unset, plain repetition), with a second simulated instant (output may differ only for dirty / ahead-in-tag-mode states or templates naming current_timestamp), and date-derived components are compared with an independent UTC calendar under every TZ of the scenario; distinct = distinct (scenario class, perturbation kind) pairs, scenario class = source x sub-command x outcome x template?, counted only when the perturbation was effective (e.g. tz-date-differs only when the local date differs from the UTC date at the instants used)",
+        assumptions: &[
+            "templates that explicitly ask for nondeterminism (now(), get_random(), get_env()) are excluded; GIT_* and RUST_LOG are related variables by documentation and are not perturbed",
+            "only the locales C, C.utf8 and POSIX are installed on this image; other locale names exercise the lookup-failure path of libc",
+            "the wall clock is frozen per process by the LD_PRELOAD shim; tzdata is installed, so named zones are effective",
+        ],
+        real_vs_stub: "real: zerv binary built from /repo's working tree, /usr/bin/git behind the pass-through proxy, libc locale and tz machinery, tmpfs; simulated: wall clock, commit clocks (placed near UTC midnights, year ends and 29 February), the whole process environment, cwd and -C spelling; oracle: byte equality with the reference execution and an independent civil-from-days UTC calendar",
+        required_probes: &["probe.tz_local_date_differs_from_utc", "probe.clock_changed_output_where_documented"],
+        init: Some(crate::argvgen::init),
+        eval_counter: Some("executions"),
+        shards: 1,
     }]
 }
 
